@@ -207,6 +207,13 @@ HARNESSES += [
      "bounded": "vectors of at most 2 (quick) / 3 (thorough) entries, strings of at most 2 characters",
      "what": "real strv_concat and strv_free with allocation failure at every malloc: contents law, NULL only with ENOMEM, "
              "nothing leaked on any path (CBMC leak check)"},
+    {"name": "path_prepend_cwd", "props": ["C03", "C04", "C05"], "src": "h_path_prepend.c", "contracts": ["public.h"],
+     "includes": ["process.posix.c"], "defs": {"VERIF_GROW": "3", "VERIF_OWN_GETCWD": None},
+     "defs_thorough": {"VERIF_GROW": "6"}, "unwind": 6, "unwind_thorough": 9, "object_bits": 8,
+     "bounded": "current directory shorter than 16 KiB (quick) / 28 KiB (thorough), i.e. at most 3 / 6 buffer growth steps; "
+                "path length symbolic up to 2^30; byte contents abstracted (ghost string lengths)",
+     "what": "path_prepend_cwd: every access inside the buffer it allocated for any path length, result layout cwd + '/' + path "
+             "+ NUL, NULL with errno set and nothing leaked on any failure (getcwd error, calloc/realloc failure)"},
     {"name": "path_is_relative", "props": ["C03"], "src": "h_path.c", "contracts": ["public.h"],
      "includes": ["process.posix.c"], "defs": {"VERIF_PATHLEN": "4"}, "defs_thorough": {"VERIF_PATHLEN": "7"},
      "unwind": 7, "unwind_thorough": 10,
@@ -393,6 +400,50 @@ PROPERTY_META = {
                 "option reproc_read/reproc_write leave 'may block' unchanged and map EAGAIN to REPROC_EWOULDBLOCK; setup_input switches "
                 "the pipe to nonblocking before the first byte (asserted in the write contract) for any input size.",
         "note": OS_NOTE + "Windows not covered.", "design_ref": "§3 C17", "not_decided": ["pipe.windows.c"]},
+    "C03": {"claimed": True, "level": "proof",
+        "text": "Child side of process_start against the execvp launch contract: the program is a copy of argv[0] or cwd/argv[0] "
+                "(by provenance; computed before chdir), argv is the caller's vector itself (hence byte for byte), environ is the "
+                "vector built from the parent's entries (when extending) then the extra entries, chdir(wd) happened iff requested. "
+                "strv_concat contents law, path_is_relative and path_prepend_cwd (memory safety for any path length, clean "
+                "failure) are decided in their own harnesses.",
+        "note": OS_NOTE + "Unbounded: process_start (structure, provenance). Bounded and labelled so: strv_concat (vector/"
+                "string sizes), path_is_relative (string length), path_prepend_cwd (number of buffer growth steps; path length "
+                "is unbounded). execvp's PATH search is the kernel/libc's. Windows CreateProcessW path not covered.",
+        "design_ref": "§3 C03", "not_decided": ["execvp PATH search", "Windows process_start"]},
+    "C08": {"claimed": True, "level": "proof",
+        "text": "expiry, now, reproc_wait (timeout returned only after the full timeout with the exit pipe not ready; until-deadline "
+                "waits exactly until the deadline) and reproc_start (deadline = now + option) are proved without bound. "
+                "find_earliest_deadline and reproc_poll are decided for 1, 2 and 3 sources (4 in the thorough tier) with everything "
+                "else symbolic: the timeout handed to poll is the smaller of the timeout and the time to the earliest absolute "
+                "deadline; timeout first -> 0 without events; deadline first -> 1 with only the deadline event on an earliest "
+                "source; expired deadline -> reported at once without touching the OS.",
+        "note": OS_NOTE + "BOUNDED in the number of poll sources (not counted as proved for arbitrary counts). The clock is assumed "
+                "non-decreasing. reproc_poll is checked in 'light' mode (contract clauses asserted by plain CBMC, frame asserted "
+                "explicitly) because DFCC's write-set instrumentation of this function did not finish.",
+        "design_ref": "§3 C08"},
+    "C09": {"claimed": True, "level": "model_checking",
+        "text": "reproc_poll for 1, 2 and 3 sources (4 thorough), interests, pipe states, handle sharing, process-less sources and "
+                "kernel answers symbolic: the kernel is asked about exactly the requested valid streams with the right direction; "
+                "events are exactly what the kernel reported for those streams; subset of interests plus deadline; process-less "
+                "sources report nothing; result = number of sources with events; EPIPE iff nothing requested can be polled.",
+        "note": OS_NOTE + "BOUNDED in the number of poll sources; complete within the bound (all loops fully unrolled, unwinding "
+                "assertions on). That a reported event means the next operation will not block is the poll contract, assumed. Windows not covered.",
+        "design_ref": "§3 C09", "not_decided": ["pipe.windows.c", "more than 4 sources"]},
+    "C16": {"claimed": True, "level": "proof",
+        "text": "reproc_drain with its loop closed by a loop contract over a ghost monitor of the sink protocol (reproc_poll and "
+                "reproc_read by contract, sinks failing at any call, any number of chunks); reproc_run_ex/reproc_run against "
+                "logging executable contracts of their five callees (destroy exactly once and last on every path, first error "
+                "returned, else the stop result); sink_string bounded in content.",
+        "note": OS_NOTE + "sink_string contents are bounded (labelled). The C++ drain/run templates are not decidable with this tool chain.",
+        "design_ref": "§3 C16", "not_decided": ["reproc++ drain.hpp / run.hpp"]},
+    "C18": {"claimed": True, "level": "model_checking",
+        "text": "The real process.windows.c compiled against a stub <windows.h>: per argument, bytes written == predicted size, "
+                "nothing written past it, and an independent transcription of the MS C runtime's argument splitting applied to "
+                "the output yields exactly the input (empty string, spaces, tabs, newline, vertical tab, quotes, backslash runs); "
+                "argv_join modularly (room for every argument, single spaces, NUL at the exact end); env_join/env_join_size layout.",
+        "note": "BOUNDED in argument / entry length and count (stated per harness); complete within the bound. UTF-16 conversion "
+                "and env_concat over the parent block (wcslen/wcscpy on a Windows-provided block) are external and not covered.",
+        "design_ref": "§3 C18", "not_decided": ["env_concat", "utf.windows.c"]},
     "C19": {"claimed": False, "reason": "reproc++ is C++11 over libstdc++; cbmc 6.11.0's C++ front end cannot parse it and rejects contract syntax; a hand translation would be a model (DESIGN §8)"},
     "C20": {"claimed": False, "reason": "the claim ranges over thread interleavings; CBMC code contracts are sequential and cannot state read frames (DESIGN §8)"},
 }
